@@ -1,7 +1,7 @@
 ID = 'C12'
 GROUPS = ['common']
 CXX_SOURCES = []
-SPEC_KEYS = ['conc', 'ps', 'dup', 'ooo', 'bad', 'lost', 'rj', 'oof', 'fatal']
+SPEC_KEYS = ['conc', 'ps', 'dup', 'ooo', 'bad', 'lost', 'rj', 'dv', 'oof', 'fatal']
 INTERNAL_KEYS = []
 PROC_TIMEOUT = 900
 
@@ -23,7 +23,8 @@ PROC_TIMEOUT = 900
 #   callbacks saw: conc (max calls outstanding at once on the underlying port), ps (calls made while
 #   paused), dup (repeated completions), ooo (queued requests completed out of submission order), bad
 #   (responses whose data is not the concatenation of what the mock answered for that very request), lost
-#   (requests never completed), rj (queue-full expectation mismatches).
+#   (requests never completed), rj (queue-full expectation mismatches), dv (discovery runs whose full flag
+#   is not the OR of the requests they served + discovery callbacks run twice; the model side prints 0).
 
 
 def gen_consts(v):
@@ -52,17 +53,18 @@ TRUSTED = ['modelled rather than verified: QueueingRDMController.cpp (all method
            'the property verdict keys conc/ps/dup/ooo/bad/lost/rj are computed by the C++ harness from the '
            "mock's and the callbacks' own observations"]
 LEVEL_TEXT = ('Coq theorems over an executable small-step model (explicit call-stack agenda, scripted re-entrant '
-              'callbacks and synchronous/deferred underlying answers) of both queueing controllers: for every '
-              'history each request completes exactly once (own answer, or FAILED_TO_SEND when the queue is full or '
-              'at destruction), queued requests complete in submission order, at most one call is outstanding on '
-              'the underlying port at every step, nothing is sent while paused, every discovery request is served '
-              'by exactly one run that takes all waiting requests and is full iff one of them asked for full, and an '
-              'ACK_OVERFLOW chain is delivered as one response with the concatenated data (<= 4096 bytes) or one '
-              'error; no OutOfFuel / fatal state is reachable.  The model is tied to the C++ by a differential '
-              'correspondence check after every operation (ASan/UBSan build of the working tree).')
+              'callbacks, synchronous/deferred answers of the underlying controller) of both queueing controllers, '
+              'for every history: the run always reaches quiescence (no OutOfFuel); every submitted request completes '
+              'exactly once, queued requests complete in submission order, non-answer completions (queue full, '
+              'destruction) carry FAILED_TO_SEND; nothing reaches the underlying controller while paused.  PARTIAL: '
+              'the clauses "at most one outstanding", "own reply / ACK_OVERFLOW concatenation" and "discovery '
+              'coalescing" are modelled and checked on every run by instance checkers and by the differential '
+              'correspondence (after every operation, ASan/UBSan build of the working tree) but are not proved in Coq.')
 LEVEL_NOTE = ('Trusted: Coq kernel, extraction (ExtrOcamlBasic), OCaml/C++ glue, generator coverage of the '
               'correspondence; model = code is validated by differential testing, not proved.  Destruction is '
-              'modelled only as the last operation of a history and with inert callbacks.')
+              'modelled only as the last operation of a history and with inert callbacks.  The verdict keys '
+              'conc/ps/dup/ooo/bad/lost/rj are computed independently by the C++ harness; for conc and bad the model '
+              'side value is computed, not proved constant.')
 TECHNIQUE = 'Coq invariant proofs on a hand-written executable state-machine model + extracted-model/implementation differential correspondence'
 DESIGN_REF = 'DESIGN.md §4 C12'
 
